@@ -143,6 +143,9 @@ def gen_target(rng):
         path += b'#frag'
     return dict(ui=ui, hk=hk, host=host, port=port, path=path)
 
+def rvalue(rng):
+    return H.rvalue(rng)[:rng.choice([3, 6, 12, 24])].strip()
+
 def gen_field(rng, name, value):
     return (name, rng.choice(OWS + [b' ', b' ', b' ']), value, rng.choice(OWS + [b'', b'']))
 
@@ -164,10 +167,10 @@ def chunk_layout(rng, body):
     trailers = []
     if rng.random() < 0.25:
         for _ in range(rng.randint(1, 2)):
-            trailers.append(H.rtoken(rng) + b': ' + (H.rvalue(rng) or b'x'))
+            trailers.append(H.rtoken(rng) + b': ' + (rvalue(rng) or b'x'))
     return dict(chunks=chunks, last=last, last_ext=last_ext, trailers=trailers)
 
-def gen_request(rng, cfg, first, last, max_body=80, body=None):
+def gen_request(rng, cfg, first, last, max_body=48, body=None):
     """a well-formed proxy request (abstract syntax).  first: first request of the connection (credentials needed
     when auth is on); last: no later request follows (Connection: close / HTTP/1.0 allowed)"""
     method = rng.choice(H.METHODS + [b'GET', b'POST', b"M!#$%&'*+-.^_`|~0"])
@@ -180,11 +183,11 @@ def gen_request(rng, cfg, first, last, max_body=80, body=None):
             return
         names.add(name.lower())
         fields.insert(rng.randint(0, len(fields)) if pos is None else pos, gen_field(rng, name, value))
-    for _ in range(rng.randint(0, 4)):
-        n = H.rtoken(rng, 1, 12)
+    for _ in range(rng.randint(0, 3)):
+        n = H.rtoken(rng, 1, 10)
         if n.lower() in (b'upgrade', b'connection', b'host', b'via', b'expect') or n.lower() in HOP:
             continue
-        add(n, H.rvalue(rng))
+        add(n, rvalue(rng))
     hosttext = (b'[' + target['host'] + b']' if target['hk'] == 'IPv6' else target['host']) + (b':' + target['port'] if target['port'] else b'')
     if version == b'HTTP/1.1' or rng.random() < 0.5:
         add(recase(rng, b'Host'), rng.choice([hosttext, hosttext, b'other.example']))
@@ -200,10 +203,10 @@ def gen_request(rng, cfg, first, last, max_body=80, body=None):
     if rng.random() < 0.3:
         add(recase(rng, b'Connection'), rng.choice([b'keep-alive', b'Keep-Alive', b'close'] if last else [b'keep-alive', b'Keep-Alive']))
     if rng.random() < 0.2:
-        add(b'User-Agent', rng.choice([b'curl/8.0', b'Mozilla/5.0 (X11; Linux) Gecko', H.rvalue(rng) or b'x']))
+        add(b'User-Agent', rng.choice([b'curl/8.0', b'Mozilla/5.0 (X11; Linux) Gecko', rvalue(rng) or b'x']))
     for d in cfg['disable']:
         if rng.random() < 0.5 and d.lower() not in (b'via',):
-            add(recase(rng, d), H.rvalue(rng))
+            add(recase(rng, d), rvalue(rng))
     if cfg['disable'] and rng.random() < 0.2:
         add(recase(rng, b'Via'), b'1.0 up')
     kind = rng.choice(['none', 'cl', 'cl', 'chunked', 'chunked', 'cl0'])
@@ -233,7 +236,7 @@ def gen_request(rng, cfg, first, last, max_body=80, body=None):
 def gen_cfg(rng):
     disable = []
     if rng.random() < 0.35:
-        disable = rng.sample([b'x-drop', b'user-agent', b'accept-encoding', b'via', b'host', b'X-Mixed', b'cookie', b'expect'], rng.randint(1, 3))
+        disable = rng.sample([b'x-drop', b'user-agent', b'accept-encoding', b'via', b'accept', b'X-Mixed', b'cookie', b'expect'], rng.randint(1, 3))
     auth = b'user:pass' if rng.random() < 0.3 else None
     return dict(disable=disable, auth=auth, agent=agent())
 
@@ -513,6 +516,8 @@ def oracle(case, out):
         return 'origin side (h11) could not read %d request(s) from what was forwarded: %s' % (len(wf), why)
     for i, (a, g) in enumerate(zip(wf, got)):
         e = expect(cfg, a)
+        g = dict(g, headers=[(n, v.lower() if n.lower() == b'transfer-encoding' else v) for n, v in g['headers']])
+        e = dict(e, headers=[(n, v.lower() if n.lower() == b'transfer-encoding' else v) for n, v in e['headers']])
         for k in ('method', 'target', 'version', 'headers', 'body'):
             if g[k] != e[k]:
                 return 'request %d of the connection: %s differs: origin got %r, client sent (after the documented rewriting) %r' % (i, k, _short(g[k]), _short(e[k]))
@@ -522,7 +527,7 @@ def oracle(case, out):
                 return 'request %d: %s forwarded' % (i, hop.decode())
     # every prefix of the pieces: nothing of a request is forwarded before its last byte arrived, everything right after
     cum, k = 0, 0
-    for ps, want in zip(pieces_of(case), out['per_req']):
+    for ps, want in zip(pieces_of(case)[:len(wf)], out['per_req']):
         for j, p in enumerate(ps):
             if k >= len(out['counts']):
                 break
@@ -580,7 +585,7 @@ def coq_big(x):
 
 def coq_cfg(cfg, auth=True):
     code = base64.b64encode(cfg['auth']) if (cfg['auth'] is not None and auth) else None
-    return '(mk_cfg %s %s %s true)' % (cb(cfg['agent']), C.coq_list(cb(d) for d in cfg['disable']), cob(code))
+    return '(mk_cfg %s %s %s true true)' % (cb(cfg['agent']), C.coq_list(cb(d) for d in cfg['disable']), cob(code))
 
 def coq_field(f):
     return '(mk_field %s %s %s %s)' % tuple(cb(x) for x in f)
@@ -611,20 +616,68 @@ def coq_fwd(e, big=False):
     return '(mk_fwd %s %s %s %s %s)' % (cb(e['method']), cb(e['target']), cb(e['version']),
                                         C.coq_list('(%s, %s)' % (cb(n), cb(v)) for n, v in e['headers']), f(e['body']))
 
+def coq_cuts(raw, cuts):
+    if len(raw) > 1 and cuts == list(range(1, len(raw))):
+        return 'EveryByte'
+    return '(Cuts %s)' % C.coq_list(str(c) for c in H_norm_cuts(raw, cuts))
+
+def H_norm_cuts(raw, cuts):
+    return sorted(set(c for c in cuts if 0 < c < len(raw)))
+
+def comparable(w):
+    """forwarded bytes on which the reference reader and h11 (a lenient receiver) are expected to agree"""
+    head, sep, _ = w.partition(b'\r\n\r\n')
+    if not sep or b'\n' in head.replace(b'\r\n', b''):
+        return False
+    lines = head.split(b'\r\n')
+    if any(l[:1] in (b' ', b'\t') for l in lines[1:]) or lines[0][:1] in (b' ', b'\t', b''):
+        return False
+    names = [l.split(b':', 1)[0].lower() for l in lines[1:] if b':' in l]
+    ncl, nte = names.count(b'content-length'), names.count(b'transfer-encoding')
+    if ncl > 1 or nte > 1 or (ncl and nte):
+        return False
+    for l in lines[1:]:
+        if l.lower().startswith(b'content-length:') and len(l) > 35:
+            return False
+    if not lines[0].endswith((b' HTTP/1.1', b' HTTP/1.0')):
+        return False                                   # h11 reads only HTTP/1.x; the reference reads any HTTP/d.d
+    if names.count(b'host') != 1 and lines[0].endswith(b'1.1'):
+        return False                                   # h11 insists on exactly one Host field; the reference does not judge Host
+    if names.count(b'host') > 1:
+        return False
+    return True
+
+def h11_fwd(w):
+    """h11's reading of one forwarded request as a fwd record; the Transfer-Encoding value, which h11 lower-cases,
+    is given back as spelled on the wire"""
+    g = h11_one(w)
+    if g is None:
+        return None
+    head = w.split(b'\r\n\r\n', 1)[0].split(b'\r\n')[1:]
+    hs = []
+    for (n, v), line in zip(g['headers'], head):
+        if n.lower() == b'transfer-encoding':
+            v = line.split(b':', 1)[1].strip(b' \t')
+        hs.append((n, v))
+    return dict(g, headers=hs)
+
 def coq_term(case, out):
     cfg = case['cfg']
     big = case['kind'] == 'big'
     f = coq_big if big else cb
-    terms = ['FConn %s %s %s %d %s %s' % (coq_cfg(cfg), C.coq_bool(case['connect_ok']), C.coq_list(f(p) for p in out['fed']),
-                                          out['outcome'], f(out['up']), C.coq_list(str(n) for n in out['counts']))]
-    for i, q in enumerate(case['reqs']):
+    reqs = []
+    for q, cuts in zip(case['reqs'], case['cuts']):
         if q.get('abs') is not None and not q.get('te_list'):
-            # credentials are only asked of the first request of a connection
-            terms.append('FDom %s %s %s %s' % (coq_cfg(cfg, auth=(i == 0)), coq_request(q['abs'], big), f(q['raw']), coq_fwd(expect(cfg, q['abs']), big)))
-    if not big:
-        for w in out['per_req']:
-            if w and out['n_up'] and case['kind'] != 'te-list' and not is_tunnel(case):
-                g = h11_one(w)
+            t = '(RAbs %s %s)' % (coq_request(q['abs'], big), coq_fwd(expect(cfg, q['abs']), big))
+        else:
+            t = '(RRaw %s)' % f(q['raw'])
+        reqs.append('(%s, %s)' % (t, coq_cuts(q['raw'], cuts)))
+    terms = ['FConn %s %s %s %d %s %s' % (coq_cfg(cfg), C.coq_bool(case['connect_ok']), C.coq_list(reqs),
+                                          out['outcome'], f(out['up']), C.coq_list(str(n) for n in out['counts']))]
+    if not big and not is_tunnel(case):
+        for q, w in zip(case['reqs'], out['per_req']):
+            if w and (q.get('abs') is None or q.get('te_list')) and comparable(w):
+                g = h11_fwd(w)
                 terms.append('FRef %s %s' % (cb(w), 'None' if g is None else '(Some %s)' % coq_fwd(g)))
     return terms
 
@@ -645,6 +698,7 @@ def classify(case, out, failure):
 def model_expr(case):
     out = run_impl(case)
     return 'feed_obs %s %s init_state %s []' % (coq_cfg(case['cfg']), C.coq_bool(case['connect_ok']), C.coq_list(cb(p) for p in out['fed']))
+
 
 def shrink(case, fails):
     cur = dict(case)
